@@ -110,6 +110,26 @@ class Spec:
         if got != want:
             self.fail(sig, f'{ctx}: required `{want}`, implementation gave `{got}`')
 
+    def expect_access(self, got, want, ln, through):
+        """an access that must hand out `want` (= `<tag> val h<k> <load>`): classify the disagreement"""
+        if got == want:
+            return
+        g, w = got.split(), want.split()
+        if 'raised' in g or g[0] == 'op-raised':
+            sig = 'C12:access-raised'
+            what = 'the access must return the cached resource without inspecting it'
+        elif g[:-1] == w[:-1] and g[-1].isdigit() and w[-1].isdigit() and int(g[-1]) > int(w[-1]):
+            sig = 'C12:loaded-again-without-clear'
+            what = (f'load() ran again: the object of load #{g[-1]} was returned, the cached object of load '
+                    f'#{w[-1]} is required')
+        elif g[:-1] == w[:-1]:
+            sig = 'C12:not-the-loaded-object'
+            what = 'the returned object is not the one the current load produced'
+        else:
+            sig = through
+            what = 'wrong resource'
+        self.fail(sig, f'{ln}: {what}: required `{want}`, implementation gave `{got}`')
+
     def same_map(self, amap, name):
         """does the implementation's name denote the abstract map object?"""
         if amap is None:
@@ -376,15 +396,24 @@ class Spec:
         elif kind == 'links':
             self.check_links()
         elif kind == 'call':
-            self.expect(self.hs[t[1]].access(), 'C12:call', ln)
+            self.expect_access(self.next(), self.hs[t[1]].access(), ln, 'C12:call')
         elif kind == 'hclear':
             self.expect('res ok', 'C12:clear-raised', ln)
             self.hs[t[1]].cached = False
         elif kind == 'cached':
-            self.expect(f'cached {t[1]} {int(self.hs[t[1]].cached)}', 'C12:cached', ln)
+            got = self.next()
+            want = f'cached {t[1]} {int(self.hs[t[1]].cached)}'
+            if got != want:
+                sig = 'C12:cached-raised' if 'raised' in got else 'C12:cached'
+                self.fail(sig, f'{ln}: required `{want}`, implementation gave `{got}`')
         elif kind == 'stat':
             h = self.hs[t[1]]
-            self.expect(f'stat {t[1]} loads={h.loads} cached={int(h.cached)}', 'C12:load-count', ln)
+            got = self.next()
+            want = f'stat {t[1]} loads={h.loads} cached={int(h.cached)}'
+            if got != want:
+                sig = ('C12:cached-raised' if 'raised' in got else
+                       'C12:load-count' if got.split()[2:3] != want.split()[2:3] else 'C12:cached')
+                self.fail(sig, f'{ln}: required `{want}`, implementation gave `{got}`')
         elif kind == 'get':
             r = self.resolve(self.menv[t[1]], comps(t[2]))
             got = self.next()
@@ -411,9 +440,12 @@ class Spec:
                 want = f'item map {self.name_of(r[1])}'
                 ok = got.startswith('item map ') and self.same_map(r[1], got.split()[2])
             if not ok:
-                sig = 'C12:access-through-map' if got.startswith('item val') and want.startswith('item val') \
-                    and got.split()[2] == want.split()[2] else 'C11:getitem'
-                self.fail(sig, f'{ln}: required `{want}`, implementation gave `{got}`')
+                if want.startswith('item val') and (got.startswith('item val') and got.split()[2] == want.split()[2]
+                                                    or 'raised' in got and got != 'item raised KeyError'):
+                    self.expect_access(got, want, ln, 'C12:access-through-map')
+                    if got.startswith('item val'):
+                        return          # which load produced the value is C12's observable, not C11's
+                self.fail('C11:getitem', f'{ln}: required `{want}`, implementation gave `{got}`')
         elif kind == 'chain':
             def step(m, k):
                 h = m.visible(k)
@@ -431,9 +463,16 @@ class Spec:
                 want = 'item ' + r
                 ok = got == want
             if not ok:
-                sig = 'C12:access-through-map' if got.startswith('item val') and want.startswith('item val') \
-                    and got.split()[2] == want.split()[2] else 'C11:path-equivalence'
-                self.fail(sig, f'{ln}: required `{want}`, implementation gave `{got}`')
+                if want.startswith('item val') and (got.startswith('item val') and got.split()[2] == want.split()[2]
+                                                    or 'raised' in got and got != 'item raised KeyError'):
+                    self.expect_access(got, want, ln, 'C12:access-through-map')
+                    if got.startswith('item val'):
+                        return          # which load produced the value is C12's observable, not C11's
+                if want == 'item stuck' and 'raised' in got and got != 'item raised KeyError':
+                    # the intermediate handle had to be loaded and returned: its access raised
+                    self.fail('C12:access-raised', f'{ln}: loading the intermediate handle must not inspect the '
+                              f'resource: required `{want}`, implementation gave `{got}`')
+                self.fail('C11:path-equivalence', f'{ln}: required `{want}`, implementation gave `{got}`')
         elif kind == 'snap':
             m = self.menv[t[2]]
             got = self.next()
@@ -468,8 +507,10 @@ class Spec:
                 else:
                     want, sig = 'sitem ' + r, 'C17:mirror-item'
                     ok = got == want
-                    if not ok and got.startswith('sitem val') and got.split()[2:3] == want.split()[2:3]:
-                        sig = 'C12:access-through-static-map'
+                    if not ok and want.startswith('sitem val') and (
+                            got.startswith('sitem val') and got.split()[2:3] == want.split()[2:3]
+                            or got.startswith('sitem raised')):
+                        self.expect_access(got, want, ln, 'C12:access-through-static-map')
                 if not ok:
                     self.fail(sig, f'{ln}: required `{want}`, implementation gave `{got}`')
             elif kind == 'sget':
